@@ -1365,7 +1365,7 @@ func (vc *VC) chanInvCheck(st *State, f *Frame, chv ssa.Value, ch *Term, v Value
 	}
 	name := vc.chanVarName(f, chv)
 	for _, sr := range vc.contract.SendReqs {
-		if sr.Pattern != name {
+		if sr.Pattern != name && sr.Pattern != "*" { // "*": every send the function makes, whatever the channel
 			continue
 		}
 		env := vc.envFor(st, f)
